@@ -15,9 +15,9 @@ Inductive obs :=
 | ORefuse (code : N)
 | OIncomplete.
 
-Definition ref_view (d : devs) (o : ref_outcome) : obs :=
+Definition ref_view (o : ref_outcome) : obs :=
   match o with
-  | Deliver m c => ODeliver (m_method m) (m_target m) (m_version m) (delivered_view d m) (m_body m) c
+  | Deliver m c => ODeliver (m_method m) (m_target m) (m_version m) (delivered_view m) (m_body m) c
   | Refuse code => ORefuse code
   | Incomplete => OIncomplete
   end.
@@ -28,7 +28,7 @@ Definition obs_of_parser (p : parser) : obs :=
   | None =>
     ODeliver (command p) (request_uri p) (version p) (headers p)
              (match body p with Some b => body_bytes b | None => [] end)
-             (model_close (version p) (hget_default (headers p) s_CONNECTION []))
+             (model_close (version p) (hget_default (headers p) s_CONNECTION []) (connection_close p))
   end.
 
 Definition closes (o : obs) : bool :=
@@ -57,37 +57,35 @@ Definition cfg_of (a : adj) : cfg :=
   {| max_header := max_request_header_size a; max_body := max_request_body_size a;
      tol_reqline_ws := true; tol_limit_first := true |}.
 
-(* every deviation that the unchanged code shows *)
-Definition all_devs : devs :=
-  {| dv_trailer := true; dv_empty_chunk_line := true; dv_reqline_lf := true; dv_te_http10 := true;
-     dv_clte_keepalive := true; dv_conn_list := true; dv_te_ws_element := true; dv_target_dslash := true |}.
+(* the deviation that the code still shows: trailers are not validated (F10) *)
+Definition all_devs : devs := {| dv_trailer := true |}.
 
 (* THE GOAL.  Not proved: the layers T1 (head), T2 (bodies), T3 (framing
    decision), T5 (close decision) are; their composition over the stream
    (offset accounting of the channel loop, C02's territory) is not. *)
 Definition C01_full : Prop :=
   forall a s, bytes_ok s ->
-  observe (feed a chan_init [s]) = Some (map (ref_view no_devs) (ref_run (cfg_of a) s)).
+  observe (feed a chan_init [s]) = Some (map ref_view (ref_run (cfg_of a) s)).
 
 (* the same statement with the named deviations switched on: what the code is
    conjectured (and tested by K-chanseq + the search) to satisfy today *)
 Definition C01_full_dev : Prop :=
   forall a s, bytes_ok s ->
-  observe (feed a chan_init [s]) = Some (map (ref_view all_devs) (ref_run_dev (cfg_of a) all_devs s)).
+  observe (feed a chan_init [s]) = Some (map ref_view (ref_run_dev (cfg_of a) all_devs s)).
 
 Definition adj0 : adj :=
   {| max_request_header_size := 262144; max_request_body_size := 1073741824; adj_url_scheme := [104;116;116;112] |}.
 
-(* "POST /a HTTP/1.1\r\nTransfer-Encoding: chunked\r\n\r\n\r\n0\r\n\r\n"  (F11) *)
-Definition f11_stream : bytes :=
+(* "POST /a HTTP/1.1\r\nTransfer-Encoding: chunked\r\n\r\n0\r\nfoo\r\n\r\n"  (F10) *)
+Definition f10_stream : bytes :=
   [80;79;83;84;32;47;97;32;72;84;84;80;47;49;46;49;13;10;
    84;114;97;110;115;102;101;114;45;69;110;99;111;100;105;110;103;58;32;99;104;117;110;107;101;100;13;10;13;10]
-  ++ f11_body.
+  ++ f10_body.
 
 Lemma C01_full_refuted : ~ C01_full.
 Proof.
-  intro H. specialize (H adj0 f11_stream).
-  assert (Hok : bytes_ok f11_stream) by (unfold bytes_ok; repeat constructor).
+  intro H. specialize (H adj0 f10_stream).
+  assert (Hok : bytes_ok f10_stream) by (unfold bytes_ok; repeat constructor).
   specialize (H Hok). vm_compute in H. discriminate H.
 Qed.
 
@@ -107,6 +105,6 @@ Definition example_stream : bytes :=
 
 Example C01_full_example :
   observe (feed adj0 chan_init [example_stream])
-  = Some (map (ref_view no_devs) (ref_run (cfg_of adj0) example_stream))
+  = Some (map ref_view (ref_run (cfg_of adj0) example_stream))
   /\ length (ref_run (cfg_of adj0) example_stream) = 3%nat.
 Proof. split; vm_compute; reflexivity. Qed.
